@@ -935,6 +935,10 @@ def make_input(shape, kind="td"):
         return LazyStackedTensorDict.lazy_stack([base_td(shape[1:]) + i * 1000 for i in range(shape[0])], 0)
     if kind == "tc":
         return TC(a=td.get("a"), b=td.get("b"), n=td.get("n"), batch_size=shape)
+    if kind == "tdp":
+        # TensorDictParams (float leaves become nn.Parameters; `_new_unsafe` has a compile branch)
+        from tensordict.nn import TensorDictParams
+        return TensorDictParams(td.float())
     raise KeyError(kind)
 
 
